@@ -1,6 +1,8 @@
 package main
 
 import (
+	"math/rand"
+
 	"gopkg.in/yaml.v3"
 )
 
@@ -31,7 +33,7 @@ func noteSpellings() []string {
 
 func init() {
 	register("c03", Def{
-		Rule:       "28 supported keys x 21 root spellings x (no bass + 21 bass spellings): one `crd text conv syllable --key K` run per single chord; all 12,936 are distinct inputs",
+		Rule:       "28 supported keys x 21 root spellings x (no bass + 21 bass spellings): one `crd text conv syllable --key K` run per single chord; all 12,936 are distinct inputs; plus 588 seeded repeats with the key delivered by {key=K} on the chord or on a preceding rest",
 		Exhaustive: true,
 		Gen: func(c *Ctx) []Case {
 			cases := []Case{}
@@ -43,6 +45,18 @@ func init() {
 					}
 				}
 			}
+			// the same law when the key is established by {key=K} on the chord itself or on a preceding rest
+			// (a different delivery of the key; a seeded slice of the table)
+			rng := rand.New(rand.NewSource(c.Seed))
+			for _, k := range supportedKeys {
+				for _, r := range noteSpellings() {
+					b := ""
+					if rng.Intn(2) == 0 {
+						b = noteSpellings()[rng.Intn(21)]
+					}
+					cases = append(cases, Case{"key": k, "root": r, "bass": b, "via": []string{"self", "rest"}[rng.Intn(2)]})
+				}
+			}
 			return cases
 		},
 		Exec: func(c *Ctx, k Case) []Rec {
@@ -50,20 +64,32 @@ func init() {
 			if cs(k, "bass") != "" {
 				text += "/" + cs(k, "bass")
 			}
-			text += "[1]\n"
-			r := c.crd([]string{"text", "conv", "syllable", "--key", cs(k, "key")}, []byte(text))
+			text += "[1]"
+			args := []string{"text", "conv", "syllable", "--key", cs(k, "key")}
+			want := 1
+			switch cs(k, "via") {
+			case "self": // starts in another key, the chord carries the key
+				text += "{key=" + cs(k, "key") + "}"
+				args = []string{"text", "conv", "syllable", "--key", "F#"}
+			case "rest": // a preceding rest carries the key
+				text = "R[2]{key=" + cs(k, "key") + "} " + text
+				args = []string{"text", "conv", "syllable", "--key", "Ab"}
+				want = 2
+			}
+			text += "\n"
+			r := c.crd(args, []byte(text))
 			rec := Rec{"kind": "chord", "key": chars(cs(k, "key")), "root": chars(cs(k, "root")), "bass": chars(cs(k, "bass")),
 				"terminated": !r.TimedOut, "stdoutLen": len(r.Stdout), "stderrLen": len(r.Stderr),
 				"ok": false, "degree": []int{}, "base": []int{}, "hasBase": false, "n": 0}
 			var ins []yInstance
 			if len(r.Stdout) > 0 && yaml.Unmarshal(r.Stdout, &ins) == nil {
 				rec["n"] = len(ins)
-				if len(ins) == 1 && ins[0].Chord != nil {
+				if len(ins) == want && ins[want-1].Chord != nil {
 					rec["ok"] = true
-					rec["degree"] = chars(ins[0].Chord.Degree)
-					if ins[0].Chord.Base != nil {
+					rec["degree"] = chars(ins[want-1].Chord.Degree)
+					if ins[want-1].Chord.Base != nil {
 						rec["hasBase"] = true
-						rec["base"] = chars(*ins[0].Chord.Base)
+						rec["base"] = chars(*ins[want-1].Chord.Base)
 					}
 				}
 			}
